@@ -1523,6 +1523,33 @@ class Controller:
             )
         return None
 
+    def on_hci_reject_connection_request_command(
+        self, command: hci.HCI_Reject_Connection_Request_Command
+    ) -> None:
+        '''
+        See Bluetooth spec Vol 4, Part E - 7.1.9 Reject Connection Request command
+        '''
+
+        if self.link is None:
+            return None
+
+        if not self.classic_connections.get(command.bd_addr):
+            self._send_hci_command_status(
+                hci.HCI_ErrorCode.UNKNOWN_CONNECTION_IDENTIFIER_ERROR, command.op_code
+            )
+            return None
+        self._send_hci_command_status(hci.HCI_ErrorCode.SUCCESS, command.op_code)
+
+        # Let the initiator know, then conclude the connection setup locally
+        self._notify_peer_of_teardown(
+            lambda: self.send_lmp_packet(
+                command.bd_addr,
+                lmp.LmpNotAccepted(lmp.Opcode.LMP_HOST_CONNECTION_REQ, command.reason),
+            )
+        )
+        self.on_classic_connection_complete(command.bd_addr, command.reason)
+        return None
+
     def on_hci_remote_name_request_command(
         self, command: hci.HCI_Remote_Name_Request_Command
     ) -> None:
